@@ -29,7 +29,6 @@ expect() {
     C15f-*) echo "" ;; # nothing observable through the public API (DESIGN.md §11)
     C04f-*) echo "C04 C05" ;;
     C01g-*) echo "C01 C12" ;;
-    C13e-*) echo "" ;; # outside the affordable bounds (DESIGN.md §9)
     C04e-*) echo C17 ;;
     C17e-*) echo "C17 C15" ;;
     C05e-*) echo "C05 C16" ;;
